@@ -15,7 +15,7 @@ Open Scope Z_scope.
 Theorem C12_facts_are_v2 :
   opcode_table = OPCODE_TABLE /\ loader_table = LOADER_TABLE /\ saver_table = SAVER_TABLE /\
   dump_version = VERSION /\ four_byte_int_max = INT_MAX /\ int_lo_checked = true /\
-  float_formats = FLOAT_FORMATS /\ ser_int_text_ok = true /\
+  float_formats = FLOAT_FORMATS /\ ser_int_text_ok = true /\ load_py2string_latin1 = true /\
   strconfig_defaults = ((false, false), (true, false)).
 Proof. repeat split; reflexivity. Qed.
 Print Assumptions C12_facts_are_v2.
